@@ -38,6 +38,7 @@ def run(ctx):
     tensorid.run_identities(ctx, "W1/T7-differentiated-helper-identities", ["inv", "detpIm1", "det", "deviator", "norm_of_deviator_squared"])
     C17.o7(_Prefixed(ctx, "W2/"))
     slots(ctx)
+    no_gradient_cut(ctx)
     ctx.trust("jax.grad / jacfwd / value_and_grad / hessian differentiate w.r.t. the positional argument given by argnums (default 0)")
 
 
@@ -166,6 +167,80 @@ def slots(ctx):
                bad_detail=f"J2Plastic indexes the hardening model with ENERGY_DENSITY={e_i}, FLOW_STRESS={f_i} but it is HardeningModel(energy, flow stress)")
 
 
+CUTS = ("stop_gradient",)
+CUSTOM = ("custom_jvp", "custom_vjp", "custom_root", "custom_linear_solve", "custom_gradient")
+
+
+def _cut_sites(repo, scope):
+    """Calls / references in `scope` that resolve to a gradient-cutting jax primitive."""
+    from optilint.model import walk_local
+    out = []
+    for n in walk_local(scope.node):
+        if isinstance(n, (ast.Attribute, ast.Name)) and isinstance(getattr(n, "ctx", None), ast.Load):
+            d = dotted(n) or ""
+            if d.split(".")[-1] in CUTS:
+                out.append(n)
+                continue
+            if isinstance(n, ast.Name):
+                for v in repo.resolve(n, scope):
+                    if isinstance(v, ExtVal) and v.name.split(".")[-1] in CUTS:
+                        out.append(n)
+                        break
+    return out
+
+
+def no_gradient_cut(ctx):
+    """W4: stress and tangent are jax derivatives of the energy density, so they are consistent with it exactly when nothing in
+    the call cone of an energy density hides a dependence from autodiff: no stop_gradient, and no hand-written derivative rule
+    other than the ones whose protocol W1/W2 check."""
+    rule = "W4/T11-no-gradient-cut-in-energy-cone"
+    from .materials import MODELS
+    roots = []
+    for mod, fac, kind in MODELS:
+        roots.append(ctx.need(f"{mod}:{fac}"))
+    for fac in ("create_mechanics_functions", "create_multi_block_mechanics_functions", "create_dynamics_functions"):
+        roots.append(ctx.need(f"{M}:{fac}"))
+    cone = ctx.cg.cone(roots)
+    checked = set()
+    for mname in ("optimism.TensorMath", "optimism.Math"):
+        _, fns = C12._custom_jvp_functions(ctx, mname)
+        checked |= {f.qualname for f in fns}
+    checked.add("optimism.ScalarRootFind:find_root")
+    n = 0
+    for s in sorted(cone, key=lambda s: s.qualname):
+        if s.kind in ("comp", "class", "module") or s.module.is_test:
+            continue
+        n += 1
+        cuts = _cut_sites(ctx.repo, s)
+        for c in cuts:
+            ctx.refuted(rule, s, c, construct=f"stop_gradient-in:{s.qualname.split(':')[-1]}",
+                        detail=f"`{src(c)}` in the call cone of an energy density: the dependence of the wrapped value on the strain is hidden from "
+                               f"jax.grad / jax.hessian, so the delivered stress or tangent is not the derivative of the delivered energy")
+        # hand-written derivative rules must be among the checked ones
+        custom = []
+        for d in getattr(s.node, "decorator_list", []):
+            dd = (dotted(d.func) if isinstance(d, ast.Call) else dotted(d)) or ""
+            if dd.split(".")[-1] in CUSTOM or any(isinstance(v, ExtVal) and v.name.split(".")[-1] in CUSTOM for v in ctx.repo.resolve(d, s.parent or s)):
+                custom.append(dd)
+        for c in ast.walk(s.node) if s.kind == "function" else []:
+            if isinstance(c, ast.Call) and (dotted(c.func) or "").split(".")[-1] in CUSTOM[2:]:
+                custom.append(dotted(c.func))
+        if custom and s.qualname not in checked:
+            ctx.refuted(rule, s, None, construct=f"unchecked-custom-derivative:{s.qualname.split(':')[-1]}",
+                        detail=f"{s.qualname} carries a hand-written derivative rule ({', '.join(custom)}) that is not among the rules verified by W1/W2 "
+                               f"({sorted(q.split(':')[-1] for q in checked)})")
+        elif not cuts:
+            ctx.proved(rule, s, None, construct="no-gradient-cut", detail="no stop_gradient, no unverified custom derivative rule")
+    if n < 60:
+        raise Incomplete(f"energy-density cone has only {n} scopes; resolver lost the entry points")
+    # the matcher must recognise the construct it forbids (expected count on the tree is zero)
+    import types
+    probe = ast.parse("def f(x):\n    return jax.lax.stop_gradient(x) + lax.stop_gradient(x)\n").body[0]
+    hits = [n_ for n_ in ast.walk(probe) if isinstance(n_, ast.Attribute) and (dotted(n_) or "").split(".")[-1] in CUTS]
+    if len(hits) != 2:
+        raise Incomplete("stop_gradient matcher self-check failed")
+
+
 def variants(repo):
     from optilint.selftest import Variant, sub, sub_in_func, alpha_rename, reformat
     T = "optimism/TensorMath.py"
@@ -185,6 +260,10 @@ def variants(repo):
         Variant("flow stress wrt eqpsOld", H, sub("    return HardeningModel(hardening, jax.grad(hardening))", "    return HardeningModel(hardening, jax.grad(hardening, 1))"), "W3/T5-derivative-slots"),
         Variant("residual wrt eqpsOld", J, sub("r = jax.jacfwd(incremental_potential, 1)", "r = jax.jacfwd(incremental_potential, 2)"), "W3/T5-derivative-slots"),
         Variant("hardening slots swapped", J, sub("ENERGY_DENSITY  = 0\nFLOW_STRESS     = 1", "ENERGY_DENSITY  = 1\nFLOW_STRESS     = 0"), "W3/T5-derivative-slots"),
+        Variant("stop_gradient on the viscous increment", "optimism/material/MultiBranchHyperViscoelastic.py",
+                sub("      delta_Ev = _compute_state_increment(Ee_trial, dt, props, _return_Gneq_id_for_branch(n))",
+                    "      delta_Ev = jax.lax.stop_gradient(_compute_state_increment(Ee_trial, dt, props, _return_Gneq_id_for_branch(n)))"), "W4/T11-no-gradient-cut-in-energy-cone"),
+        Variant("stop_gradient on the plastic multiplier", J, sub("def compute_elastic_strain(", "from jax.lax import stop_gradient as _sg\ndef _frozen(x):\n    return _sg(x)\ndef compute_elastic_strain("), None),
         Variant("reformat Math", Mth, reformat(), None),
         Variant("reformat Mechanics", Me, reformat(), None),
     ]
